@@ -33,6 +33,7 @@ RAISES = {
 CB_RAISES = {
     "plain": "raise KeyError('cb-boom')",
     "badstr": "raise KeyErrorS('cb-boom')",
+    "sysexit": "raise KeyErrorExit('cb-boom')",     # a SystemExit subclass (sys.exit() inside a callback)
 }
 
 
@@ -107,6 +108,8 @@ def cb(x):
         %(raise_)s
 class KeyErrorS(KeyError):
     def __str__(self): raise RuntimeError('no str')
+class KeyErrorExit(SystemExit):
+    pass
 sub.setcallback(cb)
 channel.send(sub)
 keep = %(keep)d
@@ -181,8 +184,8 @@ def gen_conversation(rng, kinds, tag):
         c["items"] = list(range(rng.randint(1, 4)))
         c["bad"] = rng.choice(c["items"])
         c["keep"] = rng.choice([0, 1])
-        if rng.random() < 0.3:
-            c["exc"] = "badstr"
+        if rng.random() < 0.4:
+            c["exc"] = rng.choice(["badstr", "sysexit"])
     elif kind == "subchannel_dropped":
         c["items"] = gen_items(rng, rng.randint(0, 3), big=False)
     elif kind == "halfclose":
